@@ -1392,6 +1392,9 @@ impl<Front: SocketHandler + std::fmt::Debug, L: ListenerHandler + L7ListenerHand
                 should_write = true;
             }
             let front_readiness = self.frontend.readiness_mut();
+            // streams answered here leave the `Linked` state: remember their
+            // backend so the second pass below still ends them on it
+            let mut unlinked_streams: Vec<(GlobalStreamId, Token)> = Vec::new();
             for stream_id in 0..self.context.streams.len() {
                 match self.context.streams[stream_id].state {
                     StreamState::Idle => {
@@ -1421,7 +1424,9 @@ impl<Front: SocketHandler + std::fmt::Debug, L: ListenerHandler + L7ListenerHand
                         // The backend timeout should handle this, but in case the backend
                         // is also stalled, send a 504 and terminate the stream.
                         if !self.context.streams[stream_id].back.consumed {
-                            self.context.unlink_stream(stream_id);
+                            if let Some(back_token) = self.context.unlink_stream(stream_id) {
+                                unlinked_streams.push((stream_id, back_token));
+                            }
                             let answers = answers_rc.borrow();
                             let stream = &mut self.context.streams[stream_id];
                             stream.context.access_log_message =
@@ -1438,7 +1443,9 @@ impl<Front: SocketHandler + std::fmt::Debug, L: ListenerHandler + L7ListenerHand
                             should_close = false;
                         } else {
                             // Partial response in progress — forcefully terminate
-                            self.context.unlink_stream(stream_id);
+                            if let Some(back_token) = self.context.unlink_stream(stream_id) {
+                                unlinked_streams.push((stream_id, back_token));
+                            }
                             let stream = &mut self.context.streams[stream_id];
                             stream.context.access_log_message =
                                 Some("client_timeout_during_response");
@@ -1481,7 +1488,7 @@ impl<Front: SocketHandler + std::fmt::Debug, L: ListenerHandler + L7ListenerHand
                     }
                 })
                 .collect();
-            for (stream_id, back_token) in linked_streams {
+            for (stream_id, back_token) in linked_streams.into_iter().chain(unlinked_streams) {
                 if let Some(backend) = self.router.backends.get_mut(&back_token) {
                     backend.end_stream(stream_id, &mut self.context);
                 }
